@@ -318,6 +318,19 @@ func genWorld08(r *simcore.Rand) *indexsim.WorldSpec {
 			g.file()
 		}
 	}
+	if len(g.dirs) > 0 && r.Bool(0.25) {
+		// a directory listed by two parent directories
+		shared := g.dirs[r.Intn(len(g.dirs))]
+		for k := 0; k < 2; k++ {
+			mem := []int{shared}
+			if len(g.files) > 0 && r.Bool(0.5) {
+				mem = append(mem, g.pick(g.files))
+			}
+			ss := g.add(indexsim.Item{K: "sset", Mem: mem})
+			d := g.add(indexsim.Item{K: "dir", Ent: ss, Name: []string{"parentA", "parentB"}[k]})
+			g.dirs = append(g.dirs, d)
+		}
+	}
 	for i := 0; i < npn; i++ {
 		g.pn()
 	}
